@@ -1,8 +1,126 @@
-(* C04 - placeholder while the pipeline is brought up; replaced by the real theorems *)
-From Coq Require Import ZArith NArith List.
-From BHS Require Import Store Query.
-Import ListNotations.
+(* C04 - Chain query endpoints answer as pure functions of the stored header tree.
+   Only the property theorems; each is closed by `exact`.
 
-Theorem C04_stub : forall s t r, get_by_hash s t = Some r -> by_hash s t = Some r.
-Proof. intros s t r H. exact H. Qed.
-Print Assumptions C04_stub.
+   Model: BHS.Query - one Gallina function per SQL statement / service method / handler branch of the read
+          endpoints (sqlHeader, sqlHeaderByHeightRange, sqlSelectTips, sqlSelectTip, sqlSelectAncestorOnHeight,
+          sqlChainBetweenTwoHashes, sqlSelectPreviousBlock; GetHeaderAncestorsByHash, GetCommonAncestor; the handlers'
+          defaults and error mapping), over the store model BHS.Store of C01.
+   Purity: every read is a FUNCTION  store -> answer  and returns no store, so "reads never modify the store" holds
+          for the model by typing; for the implementation it is checked on every run (TableDigest("headers") before and
+          after every batch of reads must be equal, class read-modified-store).
+   Hypotheses: [Valid s] - the invariant of every store reachable by ingestion of positive-work headers
+          (ChainMain.reachable_valid); [regular s t] - every parent link below t is height-consistent, which holds for
+          EVERY connected (non-orphan) header (C04_connected_regular) and for orphan chains whose parents were stored
+          first; it fails exactly below an orphan whose parent arrived later.
+
+   Full statement and where the code departs from it:
+   * ancestors: "exactly the parent-linked path when b is an ancestor-or-self of a, a same-chain error otherwise".
+       - code as it is: two DIFFERENT headers of equal height give 200 []   (C04_ancestors_equal_height_refuted, known
+         finding C04-ancestors-equal-height-empty; repaired variant Query.ancestors_fixed = build/proposed-fixes/C04-1.diff
+         satisfies the full statement: C04_ancestors_fixed);  the code as it is satisfies it for all other arguments
+         (C04_ancestors_partial);
+       - orphans whose parent arrived later keep height 1: a genuine ancestor is refused (C04_ancestors_late_parent_refuted,
+         C04_common_ancestor_late_parent_refuted; known findings) - the statement is therefore proved for regular arguments.
+   * common ancestor of an empty list / of a list containing genesis: answered 500 before the fixes 5ab472d / 5c09f8d of /repo,
+     now 400 (C04_common_ancestor_endpoint_status). *)
+From Coq Require Import ZArith NArith List.
+From BHS Require Import Store Chain ChainSpec StoreProofs ChainMain Query QueryProofs QueryAncProofs QueryCaProofs QueryExamples.
+Import ListNotations.
+Open Scope Z_scope.
+
+(* header / state by hash: that header; absent iff the hash is not stored (404) *)
+Theorem C04_lookup : forall s t, Valid s ->
+  (forall r, get_by_hash s t = Some r <-> In r s /\ id r = t) /\ (get_by_hash s t = None <-> ~ In t (ids s)).
+Proof. exact lookup_spec. Qed.
+
+(* tip/longest: the Longest row above every other Longest row = the greatest-cumulative-work header of C01 *)
+Theorem C04_tip_longest : forall s, Valid s ->
+  exists t, tip_longest s = Some t /\ In t s /\ st t = Longest /\ best s = Some t /\
+            (forall r, In r s -> st r = Longest -> r = t \/ height r < height t).
+Proof. exact tip_longest_spec. Qed.
+
+(* by height: only stored rows of the window [h, h+count-1] (count defaults to 1), and all Longest rows in it *)
+Theorem C04_by_height : forall s h c,
+  (forall r, In r (by_height_range s h c) -> In r s /\ h <= height r <= h + count_of c - 1) /\
+  (forall r, In r s -> st r = Longest -> h <= height r <= h + count_of c - 1 -> In r (by_height_range s h c)).
+Proof. exact by_height_spec. Qed.
+
+(* tips: the Longest tip plus every leaf (row without a stored child) of a Stale or Orphan branch *)
+Theorem C04_tips : forall s, Valid s ->
+  exists t, tipB s = Some t /\ st t = Longest /\ best s = Some t /\
+    forall r, In r (tips s) <-> r = t \/ (In r s /\ st r <> Longest /\ ~ has_child s r).
+Proof. exact tips_spec. Qed.
+
+(* every connected header is height-consistent *)
+Theorem C04_connected_regular : forall s t x, wf s -> by_hash s t = Some x -> orph x = false -> regular s t.
+Proof. exact connected_regular. Qed.
+
+(* ancestors, repaired code: the full statement *)
+Theorem C04_ancestors_fixed : forall s a b, Valid s -> regular s a -> ancestors_answer_ok s a b (ancestors_fixed s a b).
+Proof. exact ancestors_fixed_spec. Qed.
+
+Theorem C04_ancestors_fixed_iff : forall s a b, Valid s -> regular s a ->
+  ((exists p, ancestors_fixed s a b = AOk p) <-> exists rb, by_hash s b = Some rb /\ reach s a rb).
+Proof. exact ancestors_fixed_iff. Qed.
+
+(* "exactly THE path": on a height-consistent walk the parent-linked path between two headers is unique *)
+Theorem C04_path_unique : forall s a b p, path s a b p -> regular s a -> forall q, path s a b q -> p = q.
+Proof. exact path_unique. Qed.
+
+(* ancestors, the code as it is: the statement for all arguments except two different headers of equal height *)
+Theorem C04_ancestors_partial : forall s a b, Valid s -> regular s a ->
+  (forall ra rb, by_hash s a = Some ra -> by_hash s b = Some rb -> height ra = height rb -> a = b) ->
+  ancestors_answer_ok s a b (ancestors s a b).
+Proof. exact ancestors_spec_partial. Qed.
+
+Theorem C04_ancestors_equal_height_refuted :
+  exists s a b, Valid s /\ regular s a /\ ancestors s a b = AOk [] /\ ~ ancestors_answer_ok s a b (ancestors s a b).
+Proof. exact ancestors_equal_height_refuted. Qed.
+
+Theorem C04_ancestors_late_parent_refuted :
+  exists s a b rb, Valid s /\ by_hash s b = Some rb /\ reach s a rb /\
+    ancestors s a b = AErr EHigher /\ ancestors_fixed s a b = AErr EHigher /\
+    ~ ancestors_answer_ok s a b (ancestors_fixed s a b).
+Proof. exact ancestors_late_parent_refuted. Qed.
+
+(* common ancestor: an ancestor of all, strictly below the lowest given height, and no higher such header exists;
+   every other answer means that no such header exists *)
+Theorem C04_common_ancestor : forall s l hs, Valid s -> l <> [] -> (forall t, In t l -> regular s t) ->
+  Forall2 (fun t r => by_hash s t = Some r) l hs ->
+  common_answer_ok s l (min_height hs max_int32) (common_ancestor s l).
+Proof. exact common_ancestor_spec. Qed.
+
+(* for connected headers above genesis the answer always exists *)
+Theorem C04_common_ancestor_connected : forall s l hs, Valid s -> l <> [] ->
+  Forall2 (fun t r => by_hash s t = Some r /\ orph r = false) l hs -> 1 <= min_height hs max_int32 ->
+  exists r, common_ancestor s l = COk r.
+Proof. exact common_ancestor_connected. Qed.
+
+Theorem C04_common_ancestor_unknown : forall s l t, In t l -> by_hash s t = None -> common_ancestor s l = CErrNotFound.
+Proof. exact common_ancestor_unknown. Qed.
+
+(* the endpoint (handler + service) answers 200, 400 or 404 - never 500 - on every store and list *)
+Theorem C04_common_ancestor_endpoint_status : forall s l, In (cres_status (common_ancestor_endpoint s l)) [200; 400; 404].
+Proof. exact common_ancestor_endpoint_status. Qed.
+
+Theorem C04_common_ancestor_late_parent_refuted :
+  exists s l hs, Valid s /\ l <> [] /\ Forall2 (fun t r => by_hash s t = Some r) l hs /\
+    common_ancestor s l = CErrNotFound /\ ~ common_answer_ok s l (min_height hs max_int32) (common_ancestor s l).
+Proof. exact common_ancestor_late_parent_refuted. Qed.
+
+Print Assumptions C04_lookup.
+Print Assumptions C04_tip_longest.
+Print Assumptions C04_by_height.
+Print Assumptions C04_tips.
+Print Assumptions C04_connected_regular.
+Print Assumptions C04_ancestors_fixed.
+Print Assumptions C04_ancestors_fixed_iff.
+Print Assumptions C04_path_unique.
+Print Assumptions C04_ancestors_partial.
+Print Assumptions C04_ancestors_equal_height_refuted.
+Print Assumptions C04_ancestors_late_parent_refuted.
+Print Assumptions C04_common_ancestor.
+Print Assumptions C04_common_ancestor_connected.
+Print Assumptions C04_common_ancestor_unknown.
+Print Assumptions C04_common_ancestor_endpoint_status.
+Print Assumptions C04_common_ancestor_late_parent_refuted.
